@@ -45,7 +45,7 @@ OkC05(e) ==
             /\ q.ok /\ ReadPadded(x.out, 0, ty[i][2]).v = q.v
        /\ ~Terminal(e, i) => S(x.out) = S("nonterminal")
        \* a jet that JetLib specifies computed its specified function (the others enter as oracle answers)
-       /\ (IsJetLeaf(e, i) /\ JL!JetKnown(e.dag[i][6])) =>
+       /\ (IsJetLeaf(e, i) /\ JL!JetKnownFlat(e.dag[i][6])) =>
             S(x.out) = (IF S(JL!JetOut(e.dag[i][6], x.in)) = S(JL!JetFails) THEN S("jetfailed") ELSE S(JL!JetOut(e.dag[i][6], x.in)))
   /\ e.same_with_dirty_memory                                        \* independent of memory contents
 OkC07(e) ==
